@@ -218,7 +218,7 @@ def obligations(tier: str) -> List[dict]:
         for m in ('default', 'amr', 'noop', 'custom'):
             tree(m, 1, False, 120)
             for op in (0, 1):
-                if m in ('amr', 'custom'):
+                if m in ('amr', 'custom', 'noop'):
                     tree(m, 2, True, 400, (op,))
                     continue
                 for r0 in range(len(ROLES[m])):
